@@ -252,6 +252,12 @@ theorem step_idleBound (s : State) (op : Op) (h : IdleBound s) : IdleBound (step
       · split
         · exact dropCheckout_idleBound _ _ h
         · exact h
+  | cancelOff r =>
+    simp only [step]; split
+    · refine idleBound_of_eq h ?_ ?_
+      · rw [(abortTask_idle_cfg _ _).1]; simp
+      · rw [(abortTask_idle_cfg _ _).2]; simp
+    · exact h
   | dialDone r o =>
     simp only [step]; split
     · exact idleBound_of_eq h rfl rfl
@@ -411,6 +417,7 @@ theorem step_cfg (s : State) (op : Op) : (step s op).1.cfg = s.cfg := by
       · split
         · exact dropCheckout_cfg _ _
         · rfl
+  | cancelOff r => simp only [step]; split <;> simp [(abortTask_idle_cfg _ _).2]
   | dialDone r o => simp only [step]; split <;> simp
   | finish r => simp only [step]; split <;> simp
   | connReady c => simp only [step]; split <;> simp
